@@ -63,10 +63,14 @@ FixedNames == { <<"T","R","U","E">>, <<"R","1","C","1">>, <<"R","C">>, <<"A","1"
 
 ColCases  == [k : {"col"}, n : 1..LastCol]
 RefCases  == [k : {"ref"}, row : Rows, col : Cols, absR : BOOLEAN, absC : BOOLEAN, host : Hosts]
+(* ranges: both ends with their own flags; the printed text need not be the spec's (a range over all rows
+   may be printed as a column range) but must parse back to the same ends and flags *)
+RRows == {1, 2, 6, LastRow}
+RangeCases == [k : {"range"}, r1 : RRows, r2 : RRows, c1 : {1, 2}, c2 : {2, 3}, f : [1..4 -> BOOLEAN], host : Hosts]
 NameCases == [k : {"name"}, chars : (SeqsUpTo(NameAlphabet, NameLen) \ {<<>>}) \cup FixedNames]
 
 VARIABLE c
-GInit == c \in ColCases \cup RefCases \cup NameCases
+GInit == c \in ColCases \cup RefCases \cup {x \in RangeCases : x.r1 <= x.r2} \cup NameCases
 GSpec == GInit /\ [][UNCHANGED c]_c
 
 (* ---- the design-level theorems, checked on every case ---- *)
@@ -79,5 +83,9 @@ Emit ==
                                                  hostR |-> c.host[1], hostC |-> c.host[2],
                                                  a1 |-> A1(c.row, c.col, c.absR, c.absC),
                                                  r1c1 |-> R1C1(c.row, c.col, c.absR, c.absC, c.host[1], c.host[2])])>>)
+    [] c.k = "range" -> PrintT(<<"CASE", ToJson([k |-> "range", r1 |-> c.r1, c1 |-> c.c1, r2 |-> c.r2, c2 |-> c.c2,
+                                                  absR1 |-> c.f[1], absC1 |-> c.f[2], absR2 |-> c.f[3], absC2 |-> c.f[4],
+                                                  hostR |-> c.host[1], hostC |-> c.host[2],
+                                                  a1 |-> A1(c.r1, c.c1, c.f[1], c.f[2]) \o <<":">> \o A1(c.r2, c.c2, c.f[3], c.f[4])])>>)
     [] c.k = "name" -> PrintT(<<"CASE", ToJson([k |-> "name", chars |-> c.chars, quoted |-> Quote(c.chars)])>>)
 =============================================================================
